@@ -343,6 +343,8 @@ def run(run, model):
     run.try_rule(r04_8, model)
     run.try_rule(r04_10, model, an)
     from rules import c08
+    run.rule("R04.12", "type-checking work is not doubled per nesting level (shared with C03 R03.11): exponential time and memory on nested calls ends in an abort")
+    run.try_rule(c03.r03_11, model)
     run.rule("R04.11", "`go f` on a plain function value does not panic in the back end (shared with C08 R08.7)")
     run.try_rule(c08.r08_7, model)
     from rules import c07
